@@ -90,6 +90,15 @@ func DrawOvs(t *rapid.T) []ref.FunSig {
 			out = append(out[:at], append([]ref.FunSig{f}, out[at:]...)...)
 		}
 	}
+	if len(out) > 0 && rapid.IntRange(0, 3).Draw(t, "dupov") == 0 {
+		// one polymorphic overload registered a second time (the same signature and implementation),
+		// before or after the others: resolution and the implementation that runs stay what they were
+		j := rapid.IntRange(0, len(out)-1).Draw(t, "dupwhich")
+		if f := out[j]; len(m.Tuple(append(append([]*m.Type(nil), f.Params...), f.Ret)...).FreeVars()) > 0 {
+			at := rapid.IntRange(0, len(out)).Draw(t, "dupat")
+			out = append(out[:at], append([]ref.FunSig{f}, out[at:]...)...)
+		}
+	}
 	return out
 }
 
